@@ -127,8 +127,19 @@ def persist_version(fns):
     fn = mir.find(fns, r"^fn persist_version\(")
     uf = alias_classes(fn)
     a = Automaton(fn, "O5.1a persist_version: version file complete + durable before `current` is switched")
-    create = one([b for b in calls(fn, r"retry_transient_io::<") if any(
-        fn_calls_matching(fns, cf, r"File::create") for cf in closure_fns(fns, b))], "File::create via retry_transient_io")
+    def opens_file(cf):
+        return fn_calls_matching(fns, cf, r"File::create", 0) or fn_calls_matching(fns, cf, r"OpenOptions::open", 0)
+    create = one([b for b in calls(fn, r"retry_transient_io::<") if any(opens_file(cf) for cf in closure_fns(fns, b))],
+                 "creation of the version file via retry_transient_io")
+    # a leftover of a failed attempt (possibly longer) must be replaced: File::create truncates;
+    # OpenOptions must say truncate(true)
+    truncating = False
+    for cf in closure_fns(fns, create):
+        if fn_calls_matching(fns, cf, r"File::create", 0):
+            truncating = True
+        for bb in live_blocks(cf):
+            if bb.kind == "call" and re.search(r"OpenOptions::truncate$", bb.callee) and re.search(r"const true$", bb.args or ""):
+                truncating = True
     cok, cerr, _ = ok_err(fn, create, "File::create")
     file_root = create.dest
     syncs = [b for b in calls(fn, r"^File::sync_all$") if any(same_class(uf, x, file_root) for x in arg_locals(b))]
@@ -145,6 +156,8 @@ def persist_version(fns):
     a.event("call:rewrite_atomic(current)", [publish.idx])
     a.event("ok:rewrite_atomic", [pok]).on("ok:rewrite_atomic", "published", True)
     a.event("ret_ok", ok_ret)
+    a.event("call:create version file WITHOUT truncation", [] if truncating else [create.idx])
+    a.require("call:create version file WITHOUT truncation", "false", "the version file is opened without truncation: a longer file left behind by a failed attempt keeps its stale tail and the version can never be recovered again")
     a.require("write", "{created}", "version file written before it was (successfully) created")
     a.require("call:rewrite_atomic(current)", "(and {created} {synced} (not {dirty}) {dir})",
               "`current` is switched before the version file is written, fsynced and its directory entry fsynced")
@@ -807,7 +820,7 @@ def leveled_trivial_lmax(fns):
         raise MirError("choose: no Move whose destination is provably the last level (trivial_lmax block not found)")
     # the emptiness scan: Range { start: 1, end: E }.any(closure) with E == level_count - 1
     scans_false = []
-    for b in calls(fn, r"<std::ops::Range<usize> as Iterator>::any::<"):
+    for b in calls(fn, r"<std::ops::Range<usize> as Iterator>::(any|all)::<"):
         rng = None
         for st in b.stmts:
             mm = re.match(r"^(_\d+) = std::ops::Range::<usize> \{ start: (.*), end: (.*) \}$", st)
@@ -822,12 +835,17 @@ def leveled_trivial_lmax(fns):
         glue_results.append(("intermediate-level scan starts at level 1 (bb%d)" % b.idx, v1[0], v1[2]))
         glue_results.append(("intermediate-level scan ends before level_count - 1 (bb%d)" % b.idx, v2[0], v2[2]))
         cl = closure_fns(fns, b)
-        body_ok = any(fn_calls_matching(fns, c, r"^Version::level$", 0) and fn_calls_matching(fns, c, r"::is_empty$", 0) and
-                      any(re.search(r"= Not\(", st) for blk in live_blocks(c) for st in blk.stmts) for c in cl)
-        if v1[0] == "proved" and v2[0] == "proved" and body_ok:
-            scans_false.append(false_edge(fn, b))
-    if not calls(fn, r"<std::ops::Range<usize> as Iterator>::any::<"):
-        raise MirError("choose: the intermediate-level emptiness scan is no longer a `(a..b).any(..)` (refactored?)")
+        is_any = "Iterator>::any::<" in b.callee
+        reads_level = any(fn_calls_matching(fns, c, r"^Version::level$", 0) and fn_calls_matching(fns, c, r"::is_empty$", 0) for c in cl)
+        negated = any(re.search(r"= Not\(", st) for c in cl for blk in live_blocks(c) for st in blk.stmts)
+        if v1[0] == "proved" and v2[0] == "proved" and reads_level:
+            # any(|i| !level(i).is_empty()) == false   or   all(|i| level(i).is_empty()) == true   <=> all intermediate levels empty
+            if is_any and negated:
+                scans_false.append(false_edge(fn, b))
+            elif (not is_any) and (not negated):
+                scans_false.append(true_edge(fn, b))
+    if not calls(fn, r"<std::ops::Range<usize> as Iterator>::(any|all)::<"):
+        raise MirError("choose: the intermediate-level emptiness scan is no longer a `(a..b).any(..)` / `.all(..)` (refactored?)")
     ov = calls(fn, r"KeyRange::overlaps_with_key_range$")
     ov_false = []
     for b in ov:
@@ -1282,14 +1300,25 @@ def seqno_marks(fns):
     g = mir.find(fns, r"src/tree/mod\.rs[^>]*>::get_highest_persisted_seqno\(")
     c = Automaton(g, "O18.4 Tree::get_highest_persisted_seqno = max over ALL tables of the current version of Table::get_highest_seqno")
     chain_ok = False
+    maxc = [b for b in live_blocks(g) if b.kind == "call" and re.search(r"as Iterator>::max$", b.callee)]
+    if len(maxc) != 1:
+        raise MirError("get_highest_persisted_seqno: result is not produced by exactly one Iterator::max call")
     rets = [b for b in live_blocks(g) if b.kind == "call" and b.dest == "_0"]
-    if not (len(rets) == 1 and re.search(r"as Iterator>::(max|min|last|next|fold|max_by_key)", rets[0].callee)):
-        raise MirError("get_highest_persisted_seqno: result is not produced by an iterator adaptor chain")
-    if len(rets) == 1 and re.search(r"as Iterator>::max$", rets[0].callee):
-        ch = _call_chain(g, RE_LOCAL.search(rets[0].args).group(0))
-        maps = [b for b in live_blocks(g) if b.kind == "call" and "as Iterator>::map" in b.callee]
-        chain_ok = any("iter_tables" in x for x in ch) and any("current_version" in x for x in ch) and \
-            any(re.search(r"Table::get_highest_seqno$", (b.args or "")) for b in maps)
+    ch = _call_chain(g, RE_LOCAL.search(maxc[0].args).group(0))
+    maps = [b for b in live_blocks(g) if b.kind == "call" and "as Iterator>::map" in b.callee]
+    exact = rets == maxc and any("iter_tables" in x for x in ch) and any("current_version" in x for x in ch) and \
+        any(re.search(r"Table::get_highest_seqno$", (b.args or "")) for b in maps)
+    # recognisably narrower than "every table": an adaptor that selects a subset of levels / runs / tables sits in
+    # the function, or a second way of producing the result (early return) exists
+    narrowing = [b.callee for b in live_blocks(g) if b.kind == "call" and (
+        re.search(r"as Iterator>::(find|find_map|filter|filter_map|take|skip|nth|last|next|next_back|take_while|skip_while|step_by|position|rev)\b", b.callee)
+        or re.search(r"(::first|::last|::get|::level|::l0|::split_first|::split_last|Index<[^>]*>>::index)$", b.callee))]
+    if exact and not narrowing:
+        chain_ok = True
+    elif narrowing or (rets and rets != maxc):
+        chain_ok = False
+    else:
+        raise MirError("get_highest_persisted_seqno: iterator chain neither of the known shape nor recognisably narrower (%s)" % ch)
     c.glue = [("result = max(map(iter_tables(current_version()), Table::get_highest_seqno))", "proved" if chain_ok else "refuted", 0.0)]
     c.var("x")
     c.event("return:NOT the max over all tables", [] if chain_ok else [b.idx for b in live_blocks(g) if b.kind == "return"])
@@ -1317,7 +1346,137 @@ def seqno_marks(fns):
     return out
 
 
+
+def version_seqno(fns):
+    """O2.3b: a version change draws its seqno with `next()` from the shared counter (so it is larger than
+    every seqno handed out before, in particular than every snapshot taken earlier), stores exactly that
+    seqno in the new entry and raises the visible seqno to seqno + 1."""
+    out = []
+    fn = mir.find(fns, r"super_version\.rs[^>]*>::upgrade_version\(")
+    a = Automaton(fn, "O2.3b SuperVersions::upgrade_version stamps the new version with seqno_counter.next()")
+    up = one(calls(fn, r"SuperVersions::upgrade_version_with_seqno::<"), "upgrade_version_with_seqno call")
+    args = [x.strip() for x in mir.split_top(up.args)]
+    src = RE_LOCAL.search(args[3]).group(0)
+    prod = [b for b in live_blocks(fn) if b.kind == "call" and b.dest == src]
+    seq_param = fn.debug.get("seqno")
+    ok = len(prod) == 1 and re.search(r"SequenceNumberCounter::next$", prod[0].callee) is not None and \
+        seq_param is not None and seq_param in RE_LOCAL.findall(prod[0].args or "")
+    a.glue = [("4th argument of upgrade_version_with_seqno = SequenceNumberCounter::next(seqno counter)", "proved" if ok else "refuted", 0.0)]
+    a.var("x")
+    a.event("call:upgrade_version_with_seqno(seqno NOT freshly drawn)", [] if ok else [up.idx])
+    a.require("call:upgrade_version_with_seqno(seqno NOT freshly drawn)", "false", "a version change is stamped with a seqno that was not freshly drawn from the counter: a snapshot taken right after it can resolve to later versions / see later writes")
+    out.append(a)
+
+    g = mir.find(fns, r"super_version\.rs[^>]*>::upgrade_version_with_seqno\(")
+    ctx = glue.Ctx(g)
+    b = Automaton(g, "O2.3c upgrade_version_with_seqno stores the given seqno in the new entry and raises the visible seqno to seqno + 1")
+    fm = one(calls(g, r"SequenceNumberCounter::fetch_max$"), "visible_seqno.fetch_max")
+    fargs = [x.strip() for x in mir.split_top(fm.args)]
+    t, w = glue.operand(ctx, fargs[1], 8)
+    sp = g.debug.get("seqno")
+    if not sp:
+        raise MirError("upgrade_version_with_seqno: parameter seqno not found")
+    ps, _ = glue.term(ctx, sp)
+    v = glue.equal_for_all(ctx, t, "(bvadd %s (_ bv1 64))" % ps)
+    stored = any(re.match(r"^\(_\d+\.\d+: u64\) = copy %s$" % re.escape(sp), st) for bb in live_blocks(g) for st in bb.stmts)
+    b.glue = [("visible_seqno.fetch_max argument == seqno + 1", v[0], v[2]), ("next_version.seqno = seqno", "proved" if stored else "refuted", 0.0)]
+    b.var("x")
+    b.event("call:fetch_max(not seqno + 1) / seqno not stored", [] if (v[0] == "proved" and stored) else [fm.idx])
+    b.require("call:fetch_max(not seqno + 1) / seqno not stored", "false", "the installed version does not carry the given seqno, or the visible seqno is not raised to seqno + 1")
+    out.append(b)
+    return out
+
+
+# ---------------------------------------------------------------------------------------------
+# C20 / C09 O20.5: a blob file that a table outside the compaction still references is never picked
+# ---------------------------------------------------------------------------------------------
+
+NARROW_RE = r"as Iterator>::(find|find_map|take|skip|nth|last|next_back|take_while|skip_while|step_by|position|min|max|min_by_key|max_by_key|peekable)\b|(::first|::last|::pop|::split_first|::split_last|::swap_remove|::truncate)$"
+
+
+def _forward_chain(fn, start_local, limit=64):
+    """calls that (transitively) consume a value derived from start_local (move/copy/field projections)"""
+    locs, out, seen = {start_local}, [], set()
+    changed = True
+    while changed and len(out) < limit:
+        changed = False
+        for b in live_blocks(fn):
+            for st in b.stmts:
+                m = re.match(r"^(_\d+) = (.*)$", st)
+                if m and m.group(1) not in locs and locs & set(RE_LOCAL.findall(m.group(2))):
+                    locs.add(m.group(1))
+                    changed = True
+            if b.kind == "call" and b.idx not in seen and locs & set(RE_LOCAL.findall(b.args or "")):
+                seen.add(b.idx)
+                out.append(b)
+                if b.dest and RE_LOCAL.fullmatch(b.dest) and b.dest not in locs:
+                    locs.add(b.dest)
+                changed = True
+    return out
+
+
+def blob_pick_outside_refs(fns):
+    fn = mir.find(fns, r"^fn pick_blob_files_to_rewrite\(")
+    a = Automaton(fn, "O20.5 pick_blob_files_to_rewrite: every blob file referenced by a table outside the compaction is removed from the candidates")
+    it = one(calls(fn, r"Version::iter_tables$"), "iter_tables call")
+    chain = _forward_chain(fn, it.dest)
+    outer_next = one([b for b in chain if re.search(r"as Iterator>::next$", b.callee) and "LinkedFile" not in b.callee], "next() of the table loop")
+    lst = one(calls(fn, r"Table::list_blob_file_references$"), "direct list_blob_file_references call (outside tables)")
+    lok, lerr, _ = ok_err(fn, lst, "list_blob_file_references")
+    refs = _forward_chain(fn, fn.blocks[lok].stmts and RE_LOCAL.match(fn.blocks[lok].stmts[0]).group(0) or lst.dest)
+    retains = [b for b in refs if re.search(r"Vec::<&BlobFile>::retain::<", b.callee)]
+    all_retains = calls(fn, r"::retain::<")
+    narrowing = [b for b in refs if re.search(NARROW_RE, b.callee)]
+    inner_next = [b for b in refs if re.search(r"IntoIter<LinkedFile> as Iterator>::next$", b.callee) or
+                  re.search(r"Iter<'_, LinkedFile> as Iterator>::next$", b.callee)]
+    if not narrowing and not (inner_next and retains):
+        raise MirError("pick_blob_files_to_rewrite: outside references are neither consumed by a loop with retain nor recognisably narrowed (%s)" % [b.callee for b in refs])
+    # the retain closure drops exactly the candidate with the referenced id
+    glue_ok = False
+    for rb in (retains or all_retains):
+        for cf in closure_fns(fns, rb):
+            sts = [st for bb in live_blocks(cf) for st in bb.stmts]
+            if any(re.match(r"^_0 = Ne\(", st) for st in sts) and fn_calls_matching(fns, cf, r"BlobFile::id$", 0):
+                glue_ok = True
+    a.glue = [("retain closure keeps a candidate iff its id != the referenced blob file id", "proved" if glue_ok else "refuted", 0.0)]
+    # the skip condition is membership of the table in the picked set
+    cont = one(calls(fn, r"HashSet::<u64, [^>]*>::contains::<u64>$|VecSet::<u64>::contains::<u64>$"), "picked_tables.contains")
+    a.var("pending")
+    a.event("ok:list_refs(outside table)", [lok]).on("ok:list_refs(outside table)", "pending", True)
+    exhausted = []
+    for nb in inner_next:
+        sw = fn.blocks[nb.succ[0]]
+        if sw.kind != "switch":
+            raise MirError("refs.next() is not followed by a switch")
+        for v, tgt in list(sw.switch):
+            if v == "0":
+                exhausted.append(edge_block(fn, sw.idx, tgt))
+    a.event("edge:refs exhausted (every reference went through retain)", exhausted).on("edge:refs exhausted (every reference went through retain)", "pending", False)
+    some_edges = []
+    for nb in inner_next:
+        sw = fn.blocks[nb.succ[0]]
+        for v, tgt in list(sw.switch):
+            if v == "1":
+                some_edges.append(edge_block(fn, sw.idx, tgt))
+    a.var("have_ref")
+    a.event("edge:next reference", some_edges).on("edge:next reference", "have_ref", True)
+    a.event("call:retain", [b.idx for b in retains]).on("call:retain", "have_ref", False)
+    a.event("call:refs.next", [b.idx for b in inner_next])
+    a.event("call:tables.next", [outer_next.idx])
+    ok_ret, err_ret = ret_blocks(fn)
+    a.event("ret_ok", ok_ret)
+    a.event("call:retain with WRONG predicate", [] if glue_ok else [b.idx for b in (retains or all_retains)])
+    msg = "a table outside the compaction references a candidate blob file that stays picked: the file is rewritten/dropped and deleted while a live table still points into it"
+    a.require("call:tables.next", "(not {pending})", msg)
+    a.require("ret_ok", "(not {pending})", msg)
+    a.require("call:refs.next", "(not {have_ref})", "a reference of an outside table is skipped without removing its blob file from the candidates")
+    a.require("call:retain with WRONG predicate", "false", "retain does not remove the referenced blob file from the candidates")
+    return [a]
+
+
 SPECS = {
+    "O20.5": [blob_pick_outside_refs],
+    "O2.3b": [version_seqno],
     "O18.3": [seqno_marks],
     "O14.3": [seqno_translation],
     "O3.6": [direction_discipline],
